@@ -101,23 +101,27 @@ HARNESSES.append(
          backends=["default", "kissat"],
          bound="one index node of 40 bytes (interior, 4 entries) / 56 bytes (root, 3 entries) [thorough: 48 / 64 bytes, 5 / 4 entries], every byte symbolic; directory of 4 / 3 [5 / 4] blocks, "
                "every prior fact of every block symbolic"))
-P5_UW = ["main.%d:130" % i for i in range(48)] + ["fix_problem.%d:18" % i for i in range(4)] + ["vf_bit.0:18", "vf_get_range.0:9",
+P5_UW = ["main.%d:130" % i for i in range(48)] + ["fix_problem.%d:26" % i for i in range(4)] + ["vf_bit.0:26", "vf_get_range.0:9",
          "ext2fs_test_inode_bitmap_range.0:9", "vf_reset_record.0:18", "vf_reset_record.1:4", "ext2fs_bitcount.0:5", "ext2fs_bitcount.1:3", "ext2fs_bitcount.2:5"]
 HARNESSES.append(
     dict(name="p5blocks", src="p5blocks.c", extra_src=["lib/ext2fs/blknum.c", "lib/ext2fs/bitops.c"],
          funcs=["check_block_bitmaps", "print_bitmap_problem", "ext2fs_bg_free_blocks_count", "ext2fs_bg_flags_test", "ext2fs_free_blocks_count",
                 "ext2fs_blocks_count", "ext2fs_bitcount"],
-         configs=[{"ANSWER": 0, "NG": 2, "DSZ": 32, "FDB": 1, "LAST": 5, "DISCARD": None}, {"ANSWER": 0, "NG": 2, "DSZ": 32, "FDB": 0, "LAST": 2}],
-         unwind=4, unwindset=P5_UW + ["io_channel_discard.0:18", "check_block_bitmaps.0:18", "check_block_bitmaps.1:1", "check_block_bitmaps.2:4"],
+         configs=[{"ANSWER": 0, "NG": 2, "DSZ": 32, "FDB": 1, "LAST": 5, "DISCARD": None}, {"ANSWER": 0, "NG": 2, "DSZ": 32, "FDB": 0, "LAST": 2},
+                  {"ANSWER": 0, "NG": 2, "DSZ": 64, "FDB": 0, "LAST": 8, "DISCARD": None, "_tier": "thorough"},
+                  {"ANSWER": 0, "NG": 2, "DSZ": 64, "FDB": 1, "LAST": 8, "_tier": "thorough"},
+                  {"ANSWER": 0, "NG": 3, "DSZ": 32, "FDB": 1, "LAST": 3, "DISCARD": None, "_tier": "thorough"}],
+         unwind=4, unwindset=P5_UW + ["io_channel_discard.0:26", "check_block_bitmaps.0:26", "check_block_bitmaps.1:1", "check_block_bitmaps.2:5"],
          backends=["default", "kissat"],
          bound="2 groups of 8 blocks (the last 1..8 long), first data block 0/1, every bit of both bitmaps, every descriptor byte, "
                "superblock count, ro_compat and fs->flags symbolic; e2fsck -n"))
 HARNESSES.append(
     dict(name="p5inodes", src="p5inodes.c", extra_src=["lib/ext2fs/blknum.c"],
          funcs=["check_inode_bitmaps", "print_bitmap_problem", "ext2fs_bg_free_inodes_count", "ext2fs_bg_used_dirs_count", "ext2fs_bg_flags_test"],
-         configs=[{"ANSWER": 0, "NG": 2, "DSZ": 32, "CSUM": 0}, {"ANSWER": 0, "NG": 2, "DSZ": 32, "CSUM": 1}],
+         configs=[{"ANSWER": 0, "NG": 2, "DSZ": 32, "CSUM": 0}, {"ANSWER": 0, "NG": 2, "DSZ": 32, "CSUM": 1},
+                  {"ANSWER": 0, "NG": 2, "DSZ": 64, "CSUM": 1, "_tier": "thorough"}, {"ANSWER": 0, "NG": 3, "DSZ": 32, "CSUM": 0, "_tier": "thorough"}],
          cbmc_flags=["--object-bits", "10"],
-         unwind=4, unwindset=P5_UW + ["check_inode_bitmaps.0:18", "check_inode_bitmaps.1:1", "check_inode_bitmaps.2:4"],
+         unwind=4, unwindset=P5_UW + ["check_inode_bitmaps.0:26", "check_inode_bitmaps.1:1", "check_inode_bitmaps.2:5"],
          backends=["default", "kissat"],
          bound="2 groups of 8 inodes, every bit of inode_used_map / inode_dir_map / fs->inode_map, every descriptor byte, "
                "s_free_inodes_count and fs->flags symbolic; with and without group-descriptor checksums (INODE_UNINIT honoured); e2fsck -n"))
@@ -130,14 +134,14 @@ HARNESSES.append(
          backends=["default", "kissat"],
          bound="13 inodes (2 and 11..13 checked), membership in the four pass-1 maps, both 32-bit counters, i_mode / i_links_count / i_blocks / i_flags "
                "of every inode, dir_nlink and fs->flags symbolic; 128-byte inodes, no EA-inode table; e2fsck -n (read-only)"))
-P3_UW = ["main.%d:17" % i for i in range(24)] + ["fix_problem.0:7", "vf_bit.0:17", "ext2fs_mark_generic_bmap.0:17", "ext2fs_clear_inode_bitmap.0:17",
+P3_UW = ["main.%d:9" % i for i in range(24)] + ["fix_problem.0:7", "vf_bit.0:9", "ext2fs_mark_generic_bmap.0:9", "ext2fs_clear_inode_bitmap.0:9",
          "e2fsck_dir_info_get_parent.0:7", "e2fsck_dir_info_get_dotdot.0:7", "e2fsck_reconnect_file.0:7", "fix_dotdot.0:7",
-         "ref_chain.0:7", "ref_chain.1:7", "ref_chain.2:8", "vf_run_pass3.0:17", "vf_run_pass3.1:7", "check_directory.0:8"]
+         "ref_chain.0:7", "ref_chain.1:7", "ref_chain.2:8", "vf_run_pass3.0:9", "vf_run_pass3.1:7", "check_directory.0:8"]
 HARNESSES.append(
     dict(name="p3dirs", src="p3dirs.c",
          funcs=["check_directory"],
          cut_statics={"e2fsck/pass3.c": ["e2fsck_reconnect_file", "fix_dotdot"]},
-         configs=[{"ANSWER": 0}, {"ANSWER": 0, "LOOPCHECK": None}],
+         configs=[{"ANSWER": 0, "ND": 5}, {"ANSWER": 0, "ND": 4, "LOOPCHECK": None}, {"ANSWER": 0, "ND": 6, "_tier": "thorough"}],
          unwind=4, unwindset=P3_UW,
          backends=["default", "kissat"],
          bound="table of 6 directories (root, lost+found, 4 more): parent (none or any table directory), '..' (any 32-bit value) and inode_dir_map "
